@@ -1,1 +1,272 @@
 //! Kani harnesses compiled as a child module of rustzx-core/src/zx/video/screen.rs (cfg(kani) only).
+//! Property C08: the displayed picture is the standard decode of the ULA-visible screen memory.
+#![allow(dead_code)]
+use super::*;
+use crate::utils::screen::verif_hooks::{spec_attr_offset, spec_bitmap_offset};
+use crate::verif_hooks::{FbCtx, WitFb};
+
+// ---- accessors for other hook files -----------------------------------------------------------
+
+/// byte of the screen's own copy of the display file, `rel` < 0x1800, local bank 0/1
+pub(crate) fn shadow_bitmap(s: &ZXScreen<WitFb>, local: usize, y: usize, col: usize) -> u8 {
+    s.banks[local].bitmap[y * ATTR_COLS + col]
+}
+
+/// attribute cell of the screen's own copy re-encoded as the byte it was decoded from
+pub(crate) fn shadow_attr(s: &ZXScreen<WitFb>, local: usize, row: usize, col: usize) -> u8 {
+    let a = s.banks[local].attributes[row * ATTR_COLS + col];
+    u8::from(a.ink) | (u8::from(a.paper) << 3) | if a.brightness as u8 == 1 { 0x40 } else { 0 } | if a.flash { 0x80 } else { 0 }
+}
+
+pub(crate) fn active_local_bank(s: &ZXScreen<WitFb>) -> usize {
+    s.active_bank
+}
+
+pub(crate) fn front(s: &ZXScreen<WitFb>) -> &WitFb {
+    &s.buffer
+}
+
+pub(crate) fn back(s: &ZXScreen<WitFb>) -> &WitFb {
+    &s.back_buffer
+}
+
+pub(crate) fn set_flash_phase(s: &mut ZXScreen<WitFb>, frame_counter: usize) {
+    s.frame_counter = frame_counter;
+    s.flash = spec_flash_phase(frame_counter);
+}
+
+// ---- specification ------------------------------------------------------------------------------
+
+fn any_machine() -> ZXMachine {
+    if kani::any() {
+        ZXMachine::Sinclair48K
+    } else {
+        ZXMachine::Sinclair128K
+    }
+}
+
+fn spec_first_fetch(m: ZXMachine) -> usize {
+    // first picture pixel at T 14336 / 14362 (C09 statement); the ULA has the byte a couple of T later
+    match m {
+        ZXMachine::Sinclair48K => 14336,
+        ZXMachine::Sinclair128K => 14362,
+    }
+}
+fn spec_line_t(m: ZXMachine) -> usize {
+    match m {
+        ZXMachine::Sinclair48K => 224,
+        ZXMachine::Sinclair128K => 228,
+    }
+}
+fn spec_frame_t(m: ZXMachine) -> usize {
+    match m {
+        ZXMachine::Sinclair48K => 69888,
+        ZXMachine::Sinclair128K => 70908,
+    }
+}
+
+/// FLASH phase during the frame rendered after `n` frame ends: toggles every 16 frames
+fn spec_flash_phase(n: usize) -> bool {
+    ((n + 15) / 16) % 2 == 1
+}
+
+/// standard decode of one pixel: (colour 0..7, bright 0/1)
+pub(crate) fn spec_pixel(bitmap: u8, attr: u8, x: usize, flash_phase: bool) -> (u8, u8) {
+    let set = (bitmap >> (7 - (x & 7))) & 1 == 1;
+    let ink = attr & 7;
+    let paper = (attr >> 3) & 7;
+    let swap = attr & 0x80 != 0 && flash_phase;
+    let colour = if set != swap { ink } else { paper };
+    (colour, (attr >> 6) & 1)
+}
+
+fn witness_pixel() -> FbCtx {
+    let wx: usize = kani::any();
+    let wy: usize = kani::any();
+    kani::assume(wx < CANVAS_WIDTH && wy < CANVAS_HEIGHT);
+    FbCtx { wx, wy }
+}
+
+fn any_bank(m: ZXMachine) -> (usize, usize) {
+    // (Spectrum RAM bank, local index)
+    match m {
+        ZXMachine::Sinclair48K => (0, 0),
+        ZXMachine::Sinclair128K => {
+            if kani::any() {
+                (5, 0)
+            } else {
+                (7, 1)
+            }
+        }
+    }
+}
+
+// @harness
+// @prop C08
+// @tier quick
+// @timeout 900
+// @fn ZXScreen::update; ZXScreen::process_clocks; ZXScreen::local_bank; ZXScreen::switch_bank; BlocksCount::from_clocks; BlocksCount::passed_from; ZXAttribute::from_byte; ZXAttribute::active_color; ZXColor::from_bits; bitmap_line_rel; bitmap_col_rel; attr_row_rel; attr_col_rel
+// @sym machine, displayed bank (5/7 on the 128K), witness pixel (x<256, y<192), bitmap byte and attribute byte of its cell (written through the real update() at the statement's offsets), flash phase / frame number, a decoy write to the other bank, render time
+// @assert when the beam passes the witness cell the pixel delivered to the frame buffer has the colour and brightness of the standard decode: bit 7-(x mod 8) of the bitmap byte selects ink/paper of the attribute, BRIGHT from bit 6, FLASH cells swap ink and paper in the flash phase, taken from the displayed bank only; painted exactly once
+// @bound one process_clocks call rendering the 1..3 cells ending with the witness cell (unwind 10); whole-frame equality is by the witness pixel being arbitrary
+#[kani::proof]
+#[kani::unwind(10)]
+fn c08_pixel_decode() {
+    let m = any_machine();
+    let w = witness_pixel();
+    let mut s = ZXScreen::<WitFb>::new(m, w);
+    let (bank, local) = any_bank(m);
+    s.switch_bank(bank);
+    kani::assert(s.active_bank == local, "c08.decode.displayed_bank_selected");
+    let n: usize = kani::any();
+    kani::assume(n < 64);
+    set_flash_phase(&mut s, n);
+    let (bm, at): (u8, u8) = (kani::any(), kani::any());
+    let col = w.wx >> 3;
+    s.update(spec_bitmap_offset(w.wy, col) as u16, bank, bm);
+    s.update(spec_attr_offset(w.wy, col) as u16, bank, at);
+    // decoy: the same offsets in the bank that is not displayed must not show
+    if m == ZXMachine::Sinclair128K {
+        let other = if bank == 5 { 7 } else { 5 };
+        s.update(spec_bitmap_offset(w.wy, col) as u16, other, kani::any());
+        s.update(spec_attr_offset(w.wy, col) as u16, other, kani::any());
+    }
+    // a bank that is not screen memory is ignored
+    s.update(spec_bitmap_offset(w.wy, col) as u16, 2, kani::any());
+    // the renderer has already done everything up to (at most) 2 cells before the witness cell
+    let back: usize = kani::any();
+    kani::assume(back <= 2 && back <= col);
+    s.last_blocks = BlocksCount::new(w.wy, col - back);
+    // time at which the witness cell is the last one passed
+    let t = m.specs().clocks_ula_read_origin + w.wy * m.specs().clocks_line + col * CLOCKS_PER_COL;
+    s.process_clocks(t);
+    let (colour, bright) = spec_pixel(bm, at, w.wx, spec_flash_phase(n));
+    kani::assert(!s.back_buffer.oob, "c08.decode.inside_canvas");
+    kani::assert(s.back_buffer.hits == 1, "c08.decode.pixel_painted_once");
+    kani::assert(s.back_buffer.color == colour, "c08.decode.colour");
+    kani::assert(s.back_buffer.bright == bright, "c08.decode.bright");
+    kani::assert(s.buffer.hits == 0, "c08.decode.front_buffer_untouched_mid_frame");
+    kani::cover!(at & 0x80 != 0 && spec_flash_phase(n) && colour == (at >> 3) & 7 && (at & 7) != (at >> 3) & 7, "flashing cell shows paper for a set pixel");
+    kani::cover!(bank == 7 && back == 2, "shadow screen, three cells rendered");
+    kani::cover!(w.wx == 255 && w.wy == 191, "last pixel");
+}
+
+// @harness
+// @prop C08
+// @tier quick
+// @timeout 900
+// @fn BlocksCount::from_clocks; BlocksCount::passed_from; ZXScreen::process_clocks
+// @sym machine, two frame times t0 <= t1 <= frame+40 with t1 - t0 <= 32, witness pixel, a symbolic cell (line, column)
+// @assert render schedule (inductive): starting with everything before t0 rendered, process_clocks(t1) paints exactly the cells the beam passed in (t0, t1], each once, and records t1's position; a cell is rendered no earlier than 8 T before and no later than 8 T after the beam reaches it (first pixel T 14336/14362 + 224/228 per line + 4 per cell); at the frame end all 6144 cells are rendered
+// @bound steps of at most 32 T (the machine advances at most ~8 T per bus primitive; unwind 12 cells x 8 pixels)
+#[kani::proof]
+#[kani::unwind(12)]
+fn c08_render_schedule() {
+    let m = any_machine();
+    let w = witness_pixel();
+    let mut s = ZXScreen::<WitFb>::new(m, w);
+    let f = spec_frame_t(m);
+    let t0: usize = kani::any();
+    let t1: usize = kani::any();
+    kani::assume(t0 <= t1 && t1 <= f + 40 && t1 - t0 <= 32);
+    let b0 = BlocksCount::from_clocks(t0, m);
+    let b1 = BlocksCount::from_clocks(t1, m);
+    let i0 = b0.lines * ATTR_COLS + b0.columns;
+    let i1 = b1.lines * ATTR_COLS + b1.columns;
+    kani::assert(i0 <= i1 && i1 <= ATTR_COLS * CANVAS_HEIGHT, "c08.schedule.monotone_and_bounded");
+    // beam-relative placement of a symbolic cell
+    let (l, c): (usize, usize) = (kani::any(), kani::any());
+    kani::assume(l < CANVAS_HEIGHT && c < ATTR_COLS);
+    let reach = spec_first_fetch(m) + l * spec_line_t(m) + c * 4;
+    let idx = l * ATTR_COLS + c;
+    if t1 >= reach + 8 {
+        kani::assert(idx < i1, "c08.schedule.cell_rendered_once_beam_is_clearly_past");
+    }
+    if t1 + 8 <= reach {
+        kani::assert(idx >= i1, "c08.schedule.cell_not_rendered_while_beam_is_clearly_before");
+    }
+    if t1 >= f {
+        kani::assert(i1 == ATTR_COLS * CANVAS_HEIGHT, "c08.schedule.whole_picture_done_at_frame_end");
+    }
+    s.last_blocks = BlocksCount::from_clocks(t0, m);
+    s.process_clocks(t1);
+    let widx = w.wy * ATTR_COLS + (w.wx >> 3);
+    let expected_hit = i0 <= widx && widx < i1;
+    kani::assert(s.back_buffer.hits == if expected_hit { 1 } else { 0 }, "c08.schedule.exactly_the_passed_cells_painted");
+    kani::assert(!s.back_buffer.oob, "c08.schedule.inside_canvas");
+    let after = s.last_blocks.lines * ATTR_COLS + s.last_blocks.columns;
+    kani::assert(after == i1 || (i1 == i0 && after == i0), "c08.schedule.position_recorded");
+    kani::cover!(expected_hit && i1 - i0 >= 8, "eight cells in one step, witness among them");
+    kani::cover!(t1 >= f && i0 < i1, "frame end renders the tail");
+    kani::cover!(b0.lines + 1 == b1.lines && expected_hit, "step across a line end");
+}
+
+// @harness
+// @prop C08
+// @tier quick
+// @timeout 600
+// @fn ZXScreen::new_frame; ZXScreen::switch_flash; ZXScreen::frame_buffer
+// @sym number of frames already shown (any < 4096), buffer contents via the witness recorders
+// @assert a frame end delivers the buffer that was being rendered (front/back swap), restarts rendering at the first cell, and the FLASH phase flips exactly every 16 frames (phase of frame n = ((n+15)/16) odd), inductively for any number of frames
+// @bound one frame end from an arbitrary frame number
+#[kani::proof]
+#[kani::unwind(12)]
+fn c08_frame_end_and_flash() {
+    let m = any_machine();
+    let mut s = ZXScreen::<WitFb>::new(m, FbCtx { wx: 3, wy: 5 });
+    kani::assert(s.flash == spec_flash_phase(0) && s.frame_counter == 0, "c08.flash.initial_phase");
+    let n: usize = kani::any();
+    kani::assume(n < 4096);
+    set_flash_phase(&mut s, n);
+    let hits: u32 = kani::any();
+    kani::assume(hits < 100);
+    s.back_buffer.hits = hits;
+    s.back_buffer.color = 6;
+    s.buffer.hits = 0;
+    s.last_blocks = BlocksCount::new(192, 0);
+    s.new_frame();
+    kani::assert(s.frame_buffer().hits == hits && s.frame_buffer().color == 6, "c08.frame.rendered_buffer_is_delivered");
+    kani::assert(s.back_buffer.hits == 0, "c08.frame.buffers_swapped");
+    kani::assert(s.last_blocks == BlocksCount::new(0, 0), "c08.frame.render_restarts");
+    kani::assert(s.frame_counter == n + 1 && s.flash == spec_flash_phase(n + 1), "c08.flash.toggles_every_16_frames");
+    kani::cover!(n % 16 == 0 && n > 0, "toggle frame");
+    kani::cover!(n % 16 == 5, "non-toggle frame");
+}
+
+// @harness
+// @prop C08
+// @tier quick
+// @timeout 600
+// @fn ZXScreen::update
+// @sym machine, target bank (any 0..7), relative address (any 16-bit), data, a second symbolic cell
+// @assert update() stores the byte in the screen's copy of the display file at exactly the cell the statement's offset formula names (bitmap) or the attribute cell (decoded ink/paper/bright/flash re-encode to the byte), only for banks the ULA can display (48K RAM at 0x4000; 128K banks 5 and 7); every other cell, every other bank and addresses beyond 0x1AFF are left alone
+// @bound one update with symbolic address
+#[kani::proof]
+fn c08_update_stores_cell() {
+    let m = any_machine();
+    let mut s = ZXScreen::<WitFb>::new(m, FbCtx { wx: 0, wy: 0 });
+    let bank: usize = kani::any();
+    kani::assume(bank < 8);
+    let rel: u16 = kani::any();
+    kani::assume(rel < 0x4000);
+    let d: u8 = kani::any();
+    kani::assume(d != 0);
+    s.update(rel, bank, d);
+    let local = match (m, bank) {
+        (ZXMachine::Sinclair48K, 0) => Some(0),
+        (ZXMachine::Sinclair128K, 5) => Some(0),
+        (ZXMachine::Sinclair128K, 7) => Some(1),
+        _ => None,
+    };
+    // a symbolic probe cell in a symbolic local bank
+    let (pl, py, pc): (usize, usize, usize) = (kani::any(), kani::any(), kani::any());
+    kani::assume(pl < 2 && py < 192 && pc < 32);
+    let hit_bitmap = local == Some(pl) && (rel as usize) == spec_bitmap_offset(py, pc);
+    let hit_attr = local == Some(pl) && (rel as usize) == spec_attr_offset(py, pc);
+    kani::assert(shadow_bitmap(&s, pl, py, pc) == if hit_bitmap { d } else { 0 }, "c08.update.bitmap_cell");
+    kani::assert(shadow_attr(&s, pl, py >> 3, pc) == if hit_attr { d } else { 0 }, "c08.update.attribute_cell");
+    kani::cover!(hit_bitmap && pl == 1, "bank 7 bitmap cell");
+    kani::cover!(hit_attr && d == 0xC7, "attribute with flash and bright");
+    kani::cover!(local.is_none() && bank == 2, "non-screen bank ignored");
+    kani::cover!(rel >= 0x1B00 && local.is_some(), "beyond the attributes");
+}
